@@ -139,6 +139,8 @@ def expr_core(work):
         fl.append(sl)
     su = X.function(src, "expression_t::subst", r"^expression_t expression_t::subst\(symbol_t symbol, expression_t expr\) const")
     X.rename_self_calls(su, "subst", pattern=r"[\w\]\)]\s*\.\s*subst\(", minimum=0)
+    su.sub("L15:auto x = <expression>.subst(...) -> expression_t x", r"\b(const\s+)?auto(\s*&)?\s+(\w+)\s*=\s*([^;]*subst__contract\()", r"\1expression_t \3 = \4")
+    su.sub("L15:auto x = clone() -> expression_t x", r"\b(const\s+)?auto\s+(\w+)\s*=\s*(clone\(\))", r"\1expression_t \2 = \3")
     X.lower_range_for(su, "expression_t")
     su.sub("L12b:get_size->contract", r"\bget_size\(\)", "get_size__contract()")
     fl.append(su)
